@@ -12,6 +12,9 @@ BigLock == {[n |-> n, readN |-> 99, replyJ |-> 0, failAt |-> (IF k = 0 THEN "nev
 BigScripts == BigBatch \cup BigLock
 \* scripts on which the pinned tree is known to depart (first-message wait): a client stream without messages
 ZeroMsg == {s \in AllScripts : s.n = 0}
+\* ... and those on which its mechanism (first message, then open, then forward it) must agree with the design
+NonZero == AllScripts \ ZeroMsg
+BigNonZero == {s \in BigScripts : s.n # 0}
 OneScript == {[n |-> 2, readN |-> 99, replyJ |-> 1, failAt |-> "never", mode |-> "batch", failK |-> 0]}
 LockFail == {[n |-> 2, readN |-> 99, replyJ |-> 0, failAt |-> "afterReplies", mode |-> "lockstep", failK |-> 2]}
 Emit == \A s \in AllScripts : PrintT(<<"SCRIPT", ToJson(s)>>)
